@@ -290,3 +290,5 @@ _quick("C18", "C18_anon", "a binary connection that never sent INIT leaves a que
 _quick("C18", "C18_reconnect2", "connection 1 (client id X) leaves two queued requests and closes; connection 2 announces X and receives the first grant; connection 2 closes or stays; connection 3 announces X or not; the second grant reaches the connection that now speaks for X (exactly one of two live ones), else is dropped", ["-witness", "4"], reach=["end", "third", "dropped"])
 
 _quick("C10", "C10_demote", "a leader with a holder and a queued request (a client's, or one that came from the stream) is demoted to any non-leader state; the stream then releases the holder: the client's queued request is not granted by the demoted node, the stream's is applied", ["-witness", "2"], reach=["end", "client-waiter", "stream-waiter"])
+
+_quick("C08", "C08_bufcut", "as C08_cut with 3 records and the log reader's buffer (Config.AofFileBufferSize) set to 100 bytes (rounded down to 64 by NewAofFile), so that every record straddles the end of the read buffer (with the default 4096 every 64th record does); cut at every byte", ["-witness", "5"])
